@@ -41,8 +41,9 @@ Section Records.
     (os_forced (state_of w id) = true \/ persisting (c_data tc) = false \/
      dget (result_path tc o) (mkdirs (dir_of_slug (c_slug tc)) (w_store w)) = None) ->
     eval classes run (S f) w id = (w', inl v) ->
-    exists ins, v = run (o_cls o) (persisted_reprs o) ins /\
-                dget (info_path tc o) (w_store w') = Some (FInfo (run_info tc o ins)) /\
+    exists n ins, List.length (w_runlog w) < n <= List.length (w_runlog w') /\
+                v = run (o_cls o) (persisted_reprs o) ins /\
+                dget (info_path tc o) (w_store w') = Some (FInfo (run_info tc o n ins)) /\
                 dget (log_path tc o) (w_store w') = Some (FLog [run_token tc]) /\
                 (persisting (c_data tc) = true -> dget (result_path tc o) (w_store w') = Some (FValue v)).
   Proof.
@@ -57,10 +58,19 @@ Section Records.
     fold (pre_of classes run f o) in He.
     match type of He with context [fold_left (pre_of classes run f o) ?l ?a] =>
       destruct (fold_left (pre_of classes run f o) l a) as [w2' b'] eqn:Epre end.
+    apply (fold_pre_rel classes run (fun a b => exists d, w_runlog b = w_runlog a ++ d)) in Epre;
+      [|intros a; exists []; now rewrite app_nil_r
+       |intros a b c [d1 H1] [d2 H2]; exists (d1 ++ d2); rewrite H2, H1; now rewrite app_assoc
+       |apply eval_runlog_grows].
+    destruct Epre as [d0 Hd0]. cbn [w_runlog with_store] in Hd0.
     destruct b'; [|discriminate].
     destruct (existsb _ _); [discriminate|].
     match type of He with (match ?X with _ => _ end) = _ => destruct X as [w4 [ins|e]] eqn:Ef end; [|discriminate].
-    injection He as <- <-. exists ins. split; [reflexivity|]. cbn [w_store set_state with_store].
+    apply (fold_runlog_prefix classes run f (eval_runlog_grows classes run f)) in Ef. destruct Ef as [d4 Hd4].
+    cbn [w_runlog] in Hd4.
+    injection He as <- <-. exists (List.length (w_runlog w2' ++ [(c_slug tc, o_key o)])), ins. split.
+    { cbn [w_runlog set_state with_store]. rewrite Hd4, Hd0, !app_length. simpl. lia. }
+    split; [reflexivity|]. cbn [w_store set_state with_store].
     split; [apply dget_dset_same|]. split.
     - rewrite dget_dset_other by apply log_ne_info.
       destruct (persisting (c_data tc)).
